@@ -7,7 +7,14 @@
 (***************************************************************************)
 EXTENDS Naturals, Sequences, FiniteSets
 
-ExportChannels == {"KeyPair::serialize_der", "KeyPair::serialized_der", "KeyPair::serialize_pem"}
+ExportChannels == {"KeyPair::serialize_der", "KeyPair::serialized_der", "KeyPair::serialize_pem", "Cli(key files)"}
+
+(* the command line tool: everything it says and every file that is not a key file, on success and at each point where *)
+(* writing can fail                                                                                                   *)
+CliChannels == {
+  "Cli(stdout and stderr of a successful run)", "Cli(certificate files)",
+  "Cli(stdout and stderr when a key file cannot be created)", "Cli(stdout and stderr when a certificate file cannot be created)",
+  "Cli(stdout and stderr when the output directory cannot be created)" }
 
 PublicChannels == {
   "Certificate::der", "Certificate::pem", "CertificateSigningRequest::der", "CertificateSigningRequest::pem",
@@ -19,7 +26,9 @@ PublicChannels == {
   "Error(load truncated key)", "Error(load corrupted key)", "Error(load mislabelled key pem)", "Error(load key under misfitting algorithm)",
   "Error(key pem offered as CA certificate)", "Error(key pem offered as CSR)", "Error(key pem offered as SubjectPublicKeyInfo)",
   "Error(key der offered as CA certificate)", "Error(key der offered as CSR)", "Error(key der offered as SubjectPublicKeyInfo)",
-  "Error(legacy-labelled key pem)", "Error(bundle key-then-certificate offered as CA certificate)" }
+  "Error(legacy-labelled key pem)", "Error(bundle key-then-certificate offered as CA certificate)" } \cup CliChannels
+
+
 
 Channels == ExportChannels \cup PublicChannels
 
